@@ -113,6 +113,23 @@ fn main() {
             let mut alphabet: Vec<Vec<u8>> = toks.iter().take(12).map(|t| t.text.clone().into_bytes()).collect();
             alphabet.extend([b" ".to_vec(), b"\n".to_vec(), b"x".to_vec(), b"(".to_vec(), "é".as_bytes().to_vec(), b"\n\n".to_vec()]);
             let alpha_refs: Vec<&[u8]> = alphabet.iter().map(|v| v.as_slice()).collect();
+            // targeted families: inline-leaf limits (padding rows 15/16, padding/size bytes 254/255),
+            // then an ordinary edit on top, so that promotion inline -> heap and its aftermath are exercised
+            if !bounds.is_empty() && d % 2 == 0 {
+                for fam in 0..3 {
+                    let at = *rng.pick(&bounds);
+                    let ins: Vec<u8> = match fam {
+                        0 => vec![b'\n'; rng.range(14, 17)],
+                        1 => vec![b' '; rng.range(253, 257)],
+                        _ => toks.iter().find(|t| !t.text.is_empty()).map(|t| t.text.as_bytes()[..1].repeat(rng.range(253, 257))).unwrap_or_else(|| vec![b'x'; 255]),
+                    };
+                    let e1 = TextEdit { start: at.min(text.len()), old_end: at.min(text.len()), ins };
+                    let t1 = e1.apply(&text);
+                    let e2 = random_edit(&mut rng, &t1, &bounds, &alpha_refs);
+                    hist_no += 1;
+                    case_no += emit_history(&mut out, &format!("{id}-{hist_no}"), &id, &mut parser, &text, &[e1, e2]);
+                }
+            }
             for _h in 0..hist_per_doc {
                 let steps = rng.range(1, 4);
                 let mut cur = text.clone();
